@@ -85,6 +85,30 @@ subroutine misc(a, b, n, flag)
   end do
 end subroutine misc
 """,
+    "a2lfam": """
+subroutine a2lfam(a, b, c, d, idx, n)
+  use ext_mod, only: extvar
+  integer, intent(in) :: n
+  real, intent(inout) :: a(n), b(n), c(n, n), d(n, n)
+  integer :: idx(5), i
+  character(len=4) :: s4(3)
+  a(:) = b(:) * 2.0
+  c(:, :) = d(:, :) + c(:, :)
+  a(2:10) = a(1:9) + b(2:10)
+  a(1:9) = b(1:9) + a(2:10)
+  c(1:9:2, 1) = b(1:5)
+  a(1:n:2) = b(1:n)
+  a(:) = matmul(d, b)
+  a(idx(1:3)) = b(1:3)
+  s4(:) = "abcd"
+  a(:) = b(:) * extvar
+  a(:) = [(real(i), i = 1, n)]
+  c(:, 1) = d(:, :)
+  a(1) = b(1)
+  i = 3
+  write(*, *) a(1)
+end subroutine a2lfam
+""",
     "tile": """
 subroutine tile(a, b, n, m)
   integer, intent(in) :: n, m
@@ -248,8 +272,8 @@ def model_cases(chk, rng, budget_s):
             for c in ([cname] if cname else []) + [rng.choice(list(REDUCTIONS.values()))]:
                 jobs.append(("red", prog, c, p))
         for n in tree.root.walk(Assignment):
-            for verbose in (False, True):
-                jobs.append(("a2l", prog, S.path_of(n, tree.root), verbose))
+            for o in (None, {"verbose": True}):
+                jobs.append(("a2l", prog, S.path_of(n, tree.root), o))
     rng.shuffle(jobs)
     # systematic family first (never cut by the time budget): every nest of "steps" x every size, for the tiling
     # and for chunking its outer and inner loop -- hits size < |step| <= 32 (default chunk size) in every run
@@ -266,6 +290,14 @@ def model_cases(chk, rng, budget_s):
                 first.append(("chunk", sprog, p, None if size is None else {"chunksize": size}))
         if outer:
             first.append(("swap", sprog, p, None))
+    # every refusal reason of ArrayAssignment2LoopsTrans x {no options, verbose absent/False/True, another key}
+    aprog = S.Program(_spec_of("a2lfam"), common.REPO)
+    atree = aprog.fresh()
+    for n in atree.root.walk(Assignment):
+        apath = S.path_of(n, atree.root)
+        for o in (None, {}, {"verbose": False}, {"verbose": True}, {"allow_string": True},
+                  {"allow_string": True, "verbose": True}):
+            first.append(("a2l", aprog, apath, o))
     for flags in ([1], [0], [1, 1], [1, 0], [0, 1], [1, 1, 0], [1, 0, 1], [1, 1, 1]):
         for cname in ("AlgTrans", "LFRicAlgTrans"):
             first.append(("alg", None, cname, flags, True))
@@ -302,7 +334,7 @@ def attempt_of_case(c):
         return d[0], d[1], ["node", d[2]], d[3]
     if c["kind"] == "red":
         return d[0], "", ["node", d[1]], None
-    return "ArrayAssignment2LoopsTrans", "", ["node", d[1]], ({"verbose": True} if d[2] else {})
+    return "ArrayAssignment2LoopsTrans", "", ["node", d[1]], d[2]
 
 
 # ---------------------------------------------------------------------------------------------
